@@ -2,7 +2,7 @@
    Frame._extract over the blocks) equal the specification "positional selection at the positions of the
    labels"; and the label-equality hypothesis of the theorems holds for the observed values (val_eqb). *)
 Require Import SF.Prelude SF.PySlice SF.Dtype SF.Value SF.Blocks SF.Select
-  Proofs.SliceFacts Proofs.BlocksSelect Proofs.SelectFacts Proofs.SelectExtract Proofs.SelectAllKeys Proofs.SelectLoc.
+  Proofs.SliceFacts Proofs.BlocksSelect Proofs.SelectFacts Proofs.SelectExtract Proofs.SelectLoc.
 
 Section LocExtract.
 Context {A L : Type}.
@@ -11,41 +11,35 @@ Variable rdt : list dtype -> dtype.
 Variable as_z : L -> option Z.
 Hypothesis leqb_spec : forall x y, leqb x y = true <-> x = y.
 
-Lemma leqb_refl x : leqb x x = true.
-Proof. apply leqb_spec. reflexivity. Qed.
-
 (* Frames whose axes both carry a dictionary (any labels) *)
 Theorem extract_loc_refines (f : mframe A L) (rkey ckey_ : lkey L) :
-  wf_mframe leqb f -> lkey_dom rkey -> lkey_dom ckey_ ->
+  wf_mframe leqb f ->
   (* not both keys malformed (the class of the first error is not modelled) *)
   ((exists rk, M_loc_map leqb (mf_index f) rkey = Ok rk) \/
    (forall ck, M_loc_map leqb (mf_columns f) ckey_ = Ok ck ->
       exists cs, ckey_sel ck (Z.of_nat (length (mf_columns f))) = Ok cs)) ->
-  (* outside the known finding C04-empty-columns-row-subset *)
-  (forall rk ck, M_loc_map leqb (mf_index f) rkey = Ok rk -> M_loc_map leqb (mf_columns f) ckey_ = Ok ck ->
-     extract_dom (mf_rows f) (Z.of_nat (length (flatten (mf_blocks f)))) rk ck = true) ->
   M_extract_loc leqb rdt as_z KMap KMap f rkey ckey_ = S_extract_loc leqb rdt (abs_frame f) rkey ckey_.
 Proof.
-  intros Hwf Hdr Hdc Hord Hdom.
-  pose proof (loc_map_refines leqb leqb_spec (mf_index f) rkey Hdr) as Hr.
-  pose proof (loc_map_refines leqb leqb_spec (mf_columns f) ckey_ Hdc) as Hc.
+  intros Hwf Hord.
+  pose proof (loc_map_refines leqb leqb_spec (mf_index f) rkey) as Hr.
+  pose proof (loc_map_refines leqb leqb_spec (mf_columns f) ckey_) as Hc.
   unfold M_extract_loc, S_extract_loc, M_loc. cbn [abs_frame sf_columns sf_index].
   rewrite <- Hr, <- Hc. clear Hr Hc.
   assert (Hcols : length (mf_columns f) = length (flatten (mf_blocks f))) by (destruct Hwf as (_ & _ & _ & _ & H & _); exact H).
   destruct (M_loc_map leqb (mf_columns f) ckey_) as [ck|e] eqn:Eck; cbn [res_bind]; [|reflexivity].
   destruct (M_loc_map leqb (mf_index f) rkey) as [rk|e] eqn:Erk; cbn [res_bind].
-  - rewrite (extract_refines_all_keys leqb rdt leqb_refl f rk ck Hwf (Hdom rk ck eq_refl eq_refl)).
+  - rewrite (extract_refines leqb rdt f rk ck Hwf).
     unfold S_extract. cbn [abs_frame sf_cols sf_index]. rewrite Hcols. reflexivity.
   - destruct Hord as [[rk Hrk]|Hc]; [discriminate|].
     destruct (Hc ck eq_refl) as [cs Ecs]. rewrite Ecs. reflexivity.
 Qed.
 
 (* Series: values[iloc_key] and index.iloc[iloc_key] after the translation *)
-Theorem series_loc_refines (s : sseries A L) (k : lkey L) : lkey_dom k ->
+Theorem series_loc_refines (s : sseries A L) (k : lkey L) :
   M_series_loc leqb as_z KMap s k = S_series_loc leqb s k.
 Proof.
-  intros Hd. unfold M_series_loc, S_series_loc, M_loc, S_series_iloc.
-  rewrite <- (loc_map_refines leqb leqb_spec (ss_index s) k Hd).
+  unfold M_series_loc, S_series_loc, M_loc, S_series_iloc.
+  rewrite <- (loc_map_refines leqb leqb_spec (ss_index s) k).
   destruct (M_loc_map leqb (ss_index s) k); reflexivity.
 Qed.
 
@@ -75,7 +69,7 @@ Lemma val_eqb_spec x y : val_eqb x y = true <-> x = y.
 Proof. split; [apply val_eqb_eq|intros ->; apply val_eqb_refl]. Qed.
 
 (* the theorems at the instance the correspondence evaluates *)
-Corollary loc_map_refines_val (labels : list val) (k : lkey val) : lkey_dom k ->
+Corollary loc_map_refines_val (labels : list val) (k : lkey val) :
   (ck <- M_loc_map val_eqb labels k;; ckey_sel ck (Z.of_nat (length labels))) = S_loc val_eqb labels k.
 Proof. apply loc_map_refines. exact val_eqb_spec. Qed.
 
@@ -83,7 +77,8 @@ Proof. apply loc_map_refines. exact val_eqb_spec. Qed.
 Example loc_map_instance :
   (ck <- M_loc_map Z.eqb [10; 20; 30; 40] (LSlice (Some 20) (Some 40) (Some 2));; ckey_sel ck 4) = Ok (SMany [1; 3]) /\
   S_loc Z.eqb [10; 20; 30; 40] (LBoolSeries [(40, true); (99, true); (10, false); (20, true)]) = Ok (SMany [1; 3]) /\
-  S_loc Z.eqb [10; 20; 30; 40] (LList [30; 99]) = Err "KeyError".
+  S_loc Z.eqb [10; 20; 30; 40] (LList [30; 99]) = Err "KeyError" /\
+  (ck <- M_loc_map Z.eqb [10; 20; 30; 40] (LSlice (Some 40) (Some 10) (Some (-1)));; ckey_sel ck 4) = Ok (SMany [3; 2; 1; 0]).
 Proof. vm_compute. repeat split; reflexivity. Qed.
 
 Example extract_loc_instance :
